@@ -32,9 +32,9 @@ def built_tree(rng):
         else:
             s["a"] = no_arc_path(rng)
         if rng.random() < 0.6:
-            s["fill"] = rng.choice(["red", "#12345680", "none", "blue"])
+            s["fill"] = rng.choice(["red", "#12345680", "none", "blue", "#33445500", "rgba(9,8,7,0)"])
         if rng.random() < 0.6:
-            s["stroke"] = rng.choice(["green", "rgba(10,20,30,0.25)", "none", "black"])
+            s["stroke"] = rng.choice(["green", "rgba(10,20,30,0.25)", "none", "black", "#00ff0000"])
         if rng.random() < 0.5:
             s["sw"] = rng.choice([0.5, 2.0, 3.0])
         return s
